@@ -479,7 +479,9 @@ impl Ohkami {
         }
 
         crate::DEBUG!("interrupted, trying graceful shutdown...");
+        #[cfg(ohkami_verif)] crate::__verif_sched__::sched("L0");
         drop(listener);
+        #[cfg(ohkami_verif)] crate::__verif_sched__::sched("L1");
 
         crate::DEBUG!("waiting {} session(s) to finish...", wg.count());
         wg.await;
@@ -656,6 +658,18 @@ const _: () = {
     }
 };
 
+#[cfg(ohkami_verif)]
+#[cfg(feature="__rt_native__")]
+#[doc(hidden)]
+/// verification hook (H5): drive the real ctrl-c machinery without `howl`
+pub mod __verif_sync__ {
+    pub fn install() {let _ = super::sync::CtrlC::new();}
+    pub fn reset() {super::sync::CtrlC::__verif_reset()}
+    pub fn until_interrupt<T>(f: impl std::future::Future<Output = T>) -> impl std::future::Future<Output = Option<T>> {
+        super::sync::CtrlC.until_interrupt(f)
+    }
+}
+
 #[cfg(feature="__rt_native__")]
 mod sync {
     pub struct WaitGroup(std::ptr::NonNull<
@@ -735,15 +749,29 @@ mod sync {
 
         static CATCH: AtomicBool = AtomicBool::new(false);
 
+        #[cfg(ohkami_verif)]
+        #[cfg(any(feature="rt_tokio", feature="rt_async-std", feature="rt_smol", feature="rt_nio"))]
+        impl CtrlC {
+            pub fn __verif_reset() {
+                CATCH.store(false, Ordering::SeqCst);
+                let w = WAKER.swap(null_mut(), Ordering::SeqCst);
+                if !w.is_null() {drop(unsafe {Box::from_raw(w)})}
+            }
+        }
+
         impl CtrlC {
             pub fn new() -> Self {
                 #[cfg(any(feature="rt_tokio", feature="rt_async-std", feature="rt_smol", feature="rt_nio"))]
                 ::ctrlc::set_handler(|| {
+                    #[cfg(ohkami_verif)] crate::__verif_sched__::sched("H0");
                     CATCH.store(true, Ordering::SeqCst);
+                    #[cfg(ohkami_verif)] crate::__verif_sched__::sched("H1");
                     let waker = WAKER.swap(null_mut(), Ordering::SeqCst);
+                    #[cfg(ohkami_verif)] crate::__verif_sched__::sched("H2");
                     if !waker.is_null() {
                         unsafe {Box::from_raw(waker)}.wake();
                     }
+                    #[cfg(ohkami_verif)] crate::__verif_sched__::sched("H3");
                 }).expect("Something went wrong with Ctrl-C");
 
                 #[cfg(any(feature="rt_glommio"))]
@@ -774,6 +802,7 @@ mod sync {
                                 crate::DEBUG!("[CtrlC::catch] Ready");
                                 Poll::Ready(None)
                             } else {
+                                #[cfg(ohkami_verif)] crate::__verif_sched__::sched("P2");
                                 #[cfg(any(feature="rt_tokio", feature="rt_async-std", feature="rt_smol", feature="rt_nio"))] {
                                     let prev_waker = WAKER.swap(
                                         Box::into_raw(Box::new(cx.waker().clone())),
